@@ -486,10 +486,19 @@ func (root *Root) replaceArgVars(vars map[string]interface{}, v interface{}, at 
 			if val, err = it.CoerceIn(val); err != nil {
 				ea = append(ea, resWarnp(nil, "%s", err))
 			}
+		} else if ic, _ := at.(InCoercer); ic != nil {
+			// An object literal for something other than an input type.
+			if val, err = ic.CoerceIn(val); err != nil {
+				ea = append(ea, resWarnp(nil, "%s", err))
+			}
 		}
 	case []interface{}:
 		var mt Type
-		if lt, _ := at.(*List); lt != nil {
+		lt, _ := at.(*List)
+		if nn, _ := at.(*NonNull); nn != nil {
+			lt, _ = nn.Base.(*List)
+		}
+		if lt != nil {
 			mt = lt.Base
 		}
 		nl := make([]interface{}, len(tv)) // a copy, see above
@@ -498,11 +507,24 @@ func (root *Root) replaceArgVars(vars map[string]interface{}, v interface{}, at 
 			ea = append(ea, ea2...)
 		}
 		val = nl
+		if lt == nil {
+			if ic, _ := at.(InCoercer); ic != nil {
+				// A list literal for something other than a list type.
+				if val, err = ic.CoerceIn(val); err != nil {
+					ea = append(ea, resWarnp(nil, "%s", err))
+				}
+			}
+		}
 	case Symbol:
 		bt := BaseType(at)
 		if et, _ := bt.(*Enum); et != nil {
 			if _, has := et.values.dict[string(tv)]; !has {
 				ea = append(ea, resWarnp(nil, "%s is not a valid enum value in %s", tv, et.N))
+			}
+		} else if ic, _ := at.(InCoercer); ic != nil {
+			// An enum literal for something other than an enum type.
+			if val, err = ic.CoerceIn(val); err != nil {
+				ea = append(ea, resWarnp(nil, "%s", err))
 			}
 		}
 	default:
